@@ -26,6 +26,9 @@ type BranchCase struct {
 	Seg      int64  `json:"seg,omitempty"`    // far
 	Off      int64  `json:"off,omitempty"`
 	Dword    bool   `json:"dword,omitempty"`
+	// chain: several forward branches in a row whose spans nest; Gaps[i] bytes are reserved before target i
+	Chain []string `json:"chain,omitempty"` // mnemonics
+	Gaps  []int    `json:"gaps,omitempty"`
 }
 
 func branchMnemonics() []string { return append([]string{"JMP", "CALL"}, jccSet...) }
@@ -54,6 +57,16 @@ func (c BranchCase) source() (string, []byte) {
 		fmt.Fprintf(&sb, "qtarget:\n\t%s\n", mB)
 		fill()
 		fmt.Fprintf(&sb, "\t%s\n\t%s qtarget\n", mA, c.Mn)
+	case "chain":
+		for i, mn := range c.Chain {
+			fmt.Fprintf(&sb, "\t%s\n\t%s qt%d\n", markerText(10+i), mn, i)
+		}
+		for i := range c.Chain {
+			if c.Gaps[i] > 0 {
+				fmt.Fprintf(&sb, "\tRESB %d\n", c.Gaps[i])
+			}
+			fmt.Fprintf(&sb, "qt%d:\n\t%s\n", i, markerText(40+i))
+		}
 	case "num":
 		fmt.Fprintf(&sb, "\t%s\n\t%s 0x%x\n", mA, c.Mn, c.Target)
 	case "far":
@@ -121,6 +134,43 @@ func checkC04(c BranchCase) Verdict {
 		v.Fail = fmt.Sprintf(f, a...) + "\n--- source ---\n" + src + fmt.Sprintf("--- output (%d bytes) ---\n% x", len(out), head(out, 48))
 		v.Sig = fmt.Sprintf("C04|%s|kind=%s|mode=%d|mn=%s", kind, c.Kind, mode, c.Mn)
 		return v
+	}
+	if c.Kind == "chain" {
+		end := 0
+		for i, mn := range c.Chain {
+			ob, ok1 := find(10 + i)
+			ot, ok2 := find(40 + i)
+			if !ok1 || !ok2 {
+				return fail("marker", "chain marker %d not found exactly once", i)
+			}
+			at := ob + 6
+			inst, err := x86asm.Decode(out[at:], mode)
+			if err != nil || inst.Op == 0 {
+				return fail("nodecode", "chain branch %d does not decode: %v", i, err)
+			}
+			if sem.CanonOp(inst.Op.String()) != sem.CanonOp(mn) {
+				return fail("cond", "chain branch %d: wrote %s, decodes as %q", i, mn, x86asm.IntelSyntax(inst, 0, nil))
+			}
+			rel, isRel := inst.Args[0].(x86asm.Rel)
+			if !isRel {
+				return fail("form", "chain branch %d decodes without a displacement", i)
+			}
+			got := org + int64(at) + int64(inst.Len) + int64(rel)
+			want := org + int64(ot)
+			if inst.DataSize == 16 {
+				got, want = got&0xffff, want&0xffff
+			}
+			if got != want {
+				vv := fail("target", "branch %d of the chain (%s at %#x, %d bytes) transfers to %#x, its target is %#x", i, mn, org+int64(at), inst.Len, got, want)
+				vv.Sig += "|chain"
+				return vv
+			}
+			end = ot + 6
+		}
+		v.NonTrivial = true
+		v.Class += "|chain"
+		v.Sample = map[string]any{"source": src}
+		return checkTrailing(c, v, out, org, end, fail)
 	}
 	oa, ok := find(1)
 	if !ok {
@@ -253,7 +303,7 @@ var propC04 = &Prop[BranchCase]{
 			Mode:     rapid.SampledFrom([]int{0, 16, 32}).Draw(t, "mode"),
 			Org:      rapid.SampledFrom(orgSet).Draw(t, "org"),
 			Mn:       rapid.SampledFrom(branchMnemonics()).Draw(t, "mn"),
-			Kind:     rapid.SampledFrom([]string{"fwd", "fwd", "bwd", "bwd", "num", "far"}).Draw(t, "kind"),
+			Kind:     rapid.SampledFrom([]string{"fwd", "fwd", "bwd", "bwd", "num", "far", "chain", "chain"}).Draw(t, "kind"),
 			Pad:      rapid.IntRange(0, 3).Draw(t, "pad"),
 			Trailing: rapid.Bool().Draw(t, "trailing"),
 		}
@@ -264,6 +314,17 @@ var propC04 = &Prop[BranchCase]{
 			c.Filler = rapid.SampledFrom(c04Fillers[141:]).Draw(t, "filler")
 		default:
 			c.Filler = rapid.IntRange(0, 300).Draw(t, "filler")
+		}
+		if c.Kind == "chain" {
+			k := rapid.IntRange(2, 5).Draw(t, "chainlen")
+			for i := 0; i < k; i++ {
+				c.Chain = append(c.Chain, rapid.SampledFrom(branchMnemonics()).Draw(t, "chmn"))
+				if i == 0 {
+					c.Gaps = append(c.Gaps, rapid.IntRange(100, 130).Draw(t, "gap0"))
+				} else {
+					c.Gaps = append(c.Gaps, rapid.IntRange(0, 12).Draw(t, "gapn"))
+				}
+			}
 		}
 		if c.Kind == "num" {
 			c.Target = rapid.SampledFrom([]int64{0, 5, 0x7c00, 0x7c10, 0x7c80, 0x7c81, 0x7c82, 0x7c83, 0x8000, 0xc200, 0xfffe, 0x1234}).Draw(t, "target")
@@ -301,6 +362,25 @@ var propC04 = &Prop[BranchCase]{
 				}
 				for _, tg := range []int64{0, 0x7c00, 0x7c7f, 0x7c80, 0x7c81, 0x7c82, 0x7c83, 0x7c84, 0xc200} {
 					yield(BranchCase{Mode: mode, Org: 0x7c00, Mn: mn, Kind: "num", Target: tg, Trailing: true})
+				}
+			}
+		}
+		// nested chains around the rel8 boundary: widening one branch must re-size the ones enclosing it
+		for _, mode := range []int{16, 32} {
+			for k := 2; k <= 4; k++ {
+				for g0 := 108; g0 <= 128; g0++ {
+					for _, gn := range []int{0, 1, 2, 6} {
+						c := BranchCase{Mode: mode, Org: -1, Kind: "chain", Trailing: true}
+						for i := 0; i < k; i++ {
+							c.Chain = append(c.Chain, []string{"JMP", "JE", "JNZ", "JC"}[(i+g0)%4])
+							if i == 0 {
+								c.Gaps = append(c.Gaps, g0)
+							} else {
+								c.Gaps = append(c.Gaps, gn)
+							}
+						}
+						yield(c)
+					}
 				}
 			}
 		}
